@@ -1899,8 +1899,7 @@ def ltu(x, y):
             return op(OP_LTU, x, y)
     except AttributeError:
         pass
-    x.sf = y.sf = False
-    return x < y
+    return cst(x.v < y.v)
 
 
 def geu(x, y):
@@ -1910,8 +1909,7 @@ def geu(x, y):
             return op(OP_GEU, x, y)
     except AttributeError:
         pass
-    x.sf = y.sf = False
-    return x >= y
+    return cst(x.v >= y.v)
 
 
 OP_ARITH = {
